@@ -189,7 +189,9 @@ def tool_spec(ctx, via="inproc"):
         want = rng.choice(["pos", "neg", "neg", "zero"]) if rng.random() < 0.9 else "zero"
         xf = {"M": md.random_matrix(rng, want), "mb": rng.choice([0, 0, 1, 2]),
               "tr": [rng.randint(-20, 20) for _ in range(3)], "n": rng.choice([12, 16]), "det": want}
-    return {"v": v, "t": t, "kind_mesh": kind, "ub": rng.choice([0, 0, 1, 2]), "xf": xf,
+    ub = rng.choice([0, 0, 1, 2])
+    pdtype = "int32" if ub == 0 and rng.random() < 0.5 else "float32"
+    return {"v": v, "t": t, "kind_mesh": kind, "ub": ub, "xf": xf, "pdtype": pdtype,
             "info_mesh": info_mesh, "meshdir_arg": meshdir_arg,
             "name_arg": rand_name(rng) if rng.random() < 0.5 else "",
             "stem": rng.choice(["lh.pial", "mesh1", "a", "white-left", rand_name(rng)]),
